@@ -737,7 +737,14 @@ static inline void myth_timespec_add(const struct timespec * a,
 				     struct timespec * c) {
   long ns = a->tv_nsec + b->tv_nsec;
   c->tv_nsec = ns % 1000000000;
-  c->tv_sec = a->tv_sec + b->tv_sec + ns / 1000000000;
+  if (__builtin_add_overflow(a->tv_sec, b->tv_sec, &c->tv_sec)
+      || __builtin_add_overflow(c->tv_sec, ns / 1000000000, &c->tv_sec)) {
+    /* the sum is not representable (it used to wrap to a time in the
+       past, making nanosleep return at once): saturate to the latest
+       representable time, which no clock reading exceeds */
+    c->tv_sec = (time_t)((((unsigned long long)1) << (8 * sizeof(time_t) - 1)) - 1);
+    c->tv_nsec = 999999999;
+  }
 }
 
 static inline int myth_timespec_gt(const struct timespec * a,
